@@ -11,7 +11,7 @@ from __future__ import annotations
 import os
 from decimal import Decimal
 from fractions import Fraction
-from typing import Dict, List, Tuple
+from typing import Dict, List, Optional, Tuple
 
 from ..core import SRC, AnalysisError, Report
 from ..decl import NON_DECL_MODULES, Edge, Evaluator
@@ -25,8 +25,8 @@ def degree(edge: Edge) -> int:
                sum(abs(e) for e in edge.b.factors.values()), 1)
 
 
-def evaluate(entry: str = "systems") -> Evaluator:
-    ev = Evaluator(entry=entry).run()
+def evaluate(entry: str = "systems", unity_anchors: bool = True) -> Evaluator:
+    ev = Evaluator(entry=entry, unity_anchors=unity_anchors).run()
     if ev.opaque_uses:
         w, t = ev.opaque_uses[0]
         raise AnalysisError(f"a value outside the declaration DSL reaches a declaration at {w}: {t}")
@@ -124,10 +124,21 @@ def run(rep: Report) -> None:
     rep.rule("R09.7", "reachable for the planner (necessary condition from the planner's own rules, re-verified in conversions.py): a "
              "named unit that is not decomposed through a compound equivalence of its own has a declared path to the SI target or "
              "to a unit made of factors the target decomposes into", floor=120)
-    ev = evaluate()
+    from ..model import Program
+    from ..planner_reach import PlannerReach, coherent_si, dimensionless_factors, sheds_dimensionless, verify_anchors
+    prog = Program()
+    try:
+        sheds: Optional[bool] = sheds_dimensionless(prog)
+    except AnalysisError as e:
+        rep.defer(e)
+        sheds = None
+    # rad and sr are worth 1 (SI: m/m, m^2/m^2) and the planner sheds them as such (F4); when it does not, their size is
+    # left to the declarations
+    unity = sheds is not False
+    ev = evaluate(unity_anchors=unity)
     check_tables(rep, ev)
     for m in unreached_modules(ev):
-        check_tables(rep, evaluate(entry=m), tag=m)
+        check_tables(rep, evaluate(entry=m, unity_anchors=unity), tag=m)
     rep.analysed.update({
         "modules_in_import_order": ev.order,
         "equivalence_edges": len(ev.edges),
@@ -142,7 +153,7 @@ def run(rep: Report) -> None:
         rep.rule("R09.6", "the verdicts do not depend on which shipped module is imported first", armed=True)
         base = {(e.module, e.text) for e, r, _ in ev.sizes.residuals if abs(r.dec() - 1) > TOL * degree(e)}
         for m in shipped_modules():
-            ev2 = evaluate(entry=m)
+            ev2 = evaluate(entry=m, unity_anchors=unity)
             bad2 = {(e.module, e.text) for e, r, _ in ev2.sizes.residuals if abs(r.dec() - 1) > TOL * degree(e)}
             mods = set(ev2.order)
             expected = {b for b in base if b[0] in mods}
@@ -150,9 +161,6 @@ def run(rep: Report) -> None:
             for (mod, text) in sorted(bad2 - base):
                 rep.fail("R09.3", f"{mod}:{text}", f"inconsistent when {m} is imported first", "")
     # R09.7: a necessary condition for the planner to reach SI from each named unit
-    from ..model import Program
-    from ..planner_reach import PlannerReach, coherent_si, verify_anchors
-    prog = Program()
     try:
         anchors = verify_anchors(prog)
     except AnalysisError as e:
@@ -163,9 +171,23 @@ def run(rep: Report) -> None:
         anchors = []
     pr = PlannerReach(ev)
     n7 = 0
+    if anchors and sheds is not None:
+        anchors.append("F4: _cancel_factors " + ("drops a left-over dimensionless factor without a step" if sheds else
+                                                  "emits plan steps for a left-over dimensionless factor"))
     for u in (sorted({id(x): x for x in ev.unit_by_name.values()}.values(), key=lambda x: x.uid) if anchors else []):
         if not u.is_base:
-            continue  # a named compound is its own product of base units
+            # a named compound is its own product of base units; the dimensionless ones among them (lm = cd sr) have to be
+            # shed on the way to the coherent SI unit
+            extra = dimensionless_factors(ev, u)
+            if extra and sheds is not None and coherent_si(ev, u) is not None:
+                n7 += 1
+                stuck = [d for d in extra if not sheds and pr.one not in pr.component(d)]
+                rep.check("R09.7", f"{u.module}:{u.var or u.name}", not stuck,
+                          f"{u.name!r} contains the dimensionless factor(s) {[d.name for d in stuck]}, which _cancel_factors now converts "
+                          "to One instead of dropping, and no equivalence with One is declared for them: every conversion between "
+                          f"{u.name!r} and the coherent SI unit of its dimension raises ConversionNotFound", u.where,
+                          note="dimensionless factors shed at 1 (F4)" if sheds else "dimensionless factors have a declared path to One")
+            continue
         target = coherent_si(ev, u)
         if target is None:
             continue
